@@ -240,7 +240,9 @@ class Spinner:
         for i in range(self._OBLIGATORY_REACTOR_ITERATIONS):
             self._reactor.iterate(0)
         junk = []
-        for delayed_call in self._reactor.getDelayedCalls():
+        # (A copy: a Clock-based reactor hands out its live list, from which
+        # cancel() removes the call while we are walking it.)
+        for delayed_call in list(self._reactor.getDelayedCalls()):
             delayed_call.cancel()
             junk.append(delayed_call)
         for selectable in self._reactor.removeAll():
